@@ -182,7 +182,7 @@ def r1(ctx, F):
             if a[0] == 'array':
                 for j, e in enumerate(a[1]):
                     dec_table[(f, j)] = (buf_idx(e), en)
-        elif t[0] == 'call' and t[1] == 'protocol::MessageType::from_u8':
+        elif t[0] == 'call' and t[1] in msg_type_decoders(F)[1]:
             dec_table[(f, 0)] = (buf_idx(t[2][0]), 'discr')
         elif buf_idx(t) is not None:
             dec_table[(f, 0)] = (buf_idx(t), None)
@@ -208,11 +208,59 @@ def r1(ctx, F):
 
 
 # ---------------------------------------------------------------- R2
+def msg_type_decoders(F):
+    """(functions that map a type byte to a MessageType by a switch on it, those plus the functions that hand their byte on
+    to one of them): found by signature (one u8 in, Result/Option of MessageType out), not by name"""
+    cands = {}
+    for p_, b_ in list(F.bodies.items()) + list(getattr(F, 'inlined', {}).items()):
+        if b_.kind != 'fn' or b_.argc != 1 or b_.local_ty(1) != 'u8' or '::tests' in p_:
+            continue
+        rt = b_.local_ty(0)
+        if 'protocol::MessageType' in rt and rt.startswith(('std::result::Result<protocol::MessageType', 'std::option::Option<protocol::MessageType')):
+            cands[p_] = b_
+    tables = set()
+    for p_, b_ in cands.items():
+        fl_ = flow_of(b_)
+        for bi in fl_.cfg.reachable():
+            t = b_.blocks[bi]['term']
+            if (b_.blocks[bi].get('from') or p_) != p_ and (b_.blocks[bi].get('from') or '') in cands:
+                continue        # the switch of another decoder, spliced in for analysis: that one is the table
+            if t['k'] == 'switch' and t['on']['k'] != 'const' and len(t['targets']) >= 2 and b_.local_ty(t['on']['p']['l']) == 'u8' and \
+                    fl_.origins(t['on']) and all(o.kind == 'param' and o.key == 1 for o in fl_.origins(t['on'])):
+                tables.add(p_)
+    every = set(tables)
+    for _ in range(3):
+        for p_, b_ in cands.items():
+            if p_ in every:
+                continue
+            fl_ = flow_of(b_)
+            spliced = {blk.get('from') for blk in b_.blocks if blk.get('from') in every}
+            if spliced:
+                every.add(p_)
+                continue
+            cs = fl_.calls(lambda c: c in every)
+            if cs and all(all(o.kind == 'param' and o.key == 1 for o in fl_.origins(ct['args'][0])) for _, ct in cs) and \
+                    not any('MessageType' in str(st['rv'].get('adt', '')) for blk in b_.blocks for st in blk['stmts'] if st['rv']['k'] == 'agg'):
+                every.add(p_)
+    return sorted(tables), every
+
+
 def r2(ctx, F):
-    b = F.body('protocol::MessageType::from_u8')
     adt = F.adts.get('protocol::MessageType')
-    if b is None or adt is None:
-        ctx.missing('C20.R2', 'protocol::MessageType / from_u8')
+    tables, every = msg_type_decoders(F)
+    if adt is None or not tables:
+        ctx.missing('C20.R2', 'protocol::MessageType / a function mapping the type byte to it by a switch on the value')
+    for tb_ in tables:
+        r2_table(ctx, F, tb_, adt)
+    m = F.body('protocol::Message::msg_type')
+    madt = F.adts.get('protocol::Message')
+    if m is None or madt is None:
+        ctx.missing('C20.R2', 'protocol::Message::msg_type')
+    r2_msg_type(ctx, F, m, madt, adt)
+
+
+def r2_table(ctx, F, path, adt):
+    b = F.body(path)
     fl = flow_of(b)
     cfg = fl.cfg
     discr = {v['discr']: v['name'] for v in adt['variants']}
@@ -256,10 +304,9 @@ def r2(ctx, F):
                       'MessageType::from_u8(%d) yields %s but the discriminant table says %s' % (v, res, exp), loc(b, b.lo))
     ctx.check(result_of(otherwise)[0] == 'Err', 'C20.R2', 'from_u8:other', 'every other byte -> Err',
               'MessageType::from_u8 accepts unknown type bytes', loc(b, b.lo))
-    m = F.body('protocol::Message::msg_type')
-    madt = F.adts.get('protocol::Message')
-    if m is None or madt is None:
-        ctx.missing('C20.R2', 'protocol::Message::msg_type')
+
+
+def r2_msg_type(ctx, F, m, madt, adt):
     mfl = flow_of(m)
     names = [v['name'] for v in madt['variants']]
     arms = {}
@@ -298,7 +345,13 @@ def r3(ctx, F):
         ctx.missing('C20.R3', 'FrameHeader::validate/decode/new')
     dfl = flow_of(d)
     oks = ok_assign_blocks(d, 'Ok')
-    vals = dfl.calls_to('protocol::FrameHeader::validate')
+    # validate, or the private function validate hands its header to (`Ok(self.check()?)`) when decode asks that one directly
+    vnames = {'protocol::FrameHeader::validate'}
+    for blk in v.blocks:
+        t_ = blk['term']
+        if t_.get('inlined') and any(o.kind == 'param' and o.key == 1 for a in t_.get('inlined_args', [])[:1] if a['k'] != 'const' for o in flow_of(v).origins(a)):
+            vnames.add(t_['inlined'])
+    vals = dfl.sites_of(*sorted(vnames))
     good = bool(oks) and bool(vals) and all(any(dfl.guarded_by(ob, vb, 'Ok') for vb, _ in vals) for ob in oks)
     # the validated object is the returned one
     if good:
